@@ -89,4 +89,154 @@ theorem lexSort_print (s : Srt) (rest : List Char) (hr : NoId rest) : lexSort (s
     have h2 : lexSortI ('s' :: rest) = none := lexSortWord_miss _ _ _ _ (by decide)
     simp only [h1, h2]
 
+/-! ## entries -/
+
+def UGEntry.printL : UGEntry → List Char
+  | .input p => "input".toList ++ ':' :: ' ' :: predL p
+  | .output p => "output".toList ++ ':' :: ' ' :: predL p
+  | .placeholder n s => "input".toList ++ ':' :: ' ' :: (n.toList ++ ' ' :: '-' :: '>' :: ' ' :: srtL s)
+  | .formula a => SAnn.printL a
+
+theorem srt_toList (s : Srt) : (match s with | .general => "g" | .integer => "i" | .symbol => "s").toList = srtL s := by
+  cases s <;> rfl
+
+theorem UGEntry.print_toList (e : UGEntry) : e.print.toList = UGEntry.printL e := by
+  cases e with
+  | input p => simp [UGEntry.print, UGEntry.printL, String.toList_append, predL, arity_toList, arityL]
+  | output p => simp [UGEntry.print, UGEntry.printL, String.toList_append, predL, arity_toList, arityL]
+  | placeholder n s => cases s <;> simp [UGEntry.print, UGEntry.printL, String.toList_append, srtL]
+  | formula a => simp [UGEntry.print, UGEntry.printL, SAnn.print_toList]
+
+def UGEntry.Safe : UGEntry → Prop
+  | .input p => SymName p.symbol.toList
+  | .output p => SymName p.symbol.toList
+  | .placeholder n _ => SymName n.toList
+  | .formula a => SAnn.Safe a
+
+theorem predL_startsSolid (p : Pred) (hp : SymName p.symbol.toList) : StartsSolid (predL p) :=
+  (symName_startsSolid hp).append _
+
+theorem stripPrefix_self_append (l X : List Char) : stripPrefix l (l ++ X) = some X := by
+  induction l with
+  | nil => rfl
+  | cons a l ih => simp [stripPrefix, ih]
+
+theorem ugEntryL_printL (e : UGEntry) (he : UGEntry.Safe e) (Z : List Char) :
+    ugEntryL (UGEntry.printL e ++ '.' :: Z) = some (e, '.' :: Z) := by
+  cases e with
+  | input p =>
+    have e1 : UGEntry.printL (.input p) ++ '.' :: Z = "input".toList ++ ':' :: ' ' :: (predL p ++ '.' :: Z) := by
+      simp [UGEntry.printL]
+    rw [e1]
+    simp only [ugEntryL, keywordColon_print "input" _ ((predL_startsSolid p he).append _),
+      predicateL_print p he _ (stopsAt_dot Z), Option.map_some]
+  | output p =>
+    have e1 : UGEntry.printL (.output p) ++ '.' :: Z = "output".toList ++ ':' :: ' ' :: (predL p ++ '.' :: Z) := by
+      simp [UGEntry.printL]
+    rw [e1]
+    have hmiss : keywordColon "input" ("output".toList ++ ':' :: ' ' :: (predL p ++ '.' :: Z)) = none :=
+      keywordColon_miss "input" 'i' 'o' _ _ rfl (by decide)
+    simp only [ugEntryL, hmiss, keywordColon_print "output" _ ((predL_startsSolid p he).append _),
+      predicateL_print p he _ (stopsAt_dot Z), Option.map_some]
+  | placeholder n s =>
+    have e1 : UGEntry.printL (.placeholder n s) ++ '.' :: Z =
+        "input".toList ++ ':' :: ' ' :: (n.toList ++ ' ' :: '-' :: '>' :: ' ' :: (srtL s ++ '.' :: Z)) := by
+      simp [UGEntry.printL]
+    rw [e1]
+    have hsol : StartsSolid (n.toList ++ ' ' :: '-' :: '>' :: ' ' :: (srtL s ++ '.' :: Z)) := (symName_startsSolid he).append _
+    have hkw := keywordColon_print "input" _ hsol
+    have hmiss : keywordColon "output" ("input".toList ++ ':' :: ' ' :: (n.toList ++ ' ' :: '-' :: '>' :: ' ' :: (srtL s ++ '.' :: Z))) = none :=
+      keywordColon_miss "output" 'o' 'i' _ _ rfl (by decide)
+    have hlex := lexSymConst_append n.toList (' ' :: '-' :: '>' :: ' ' :: (srtL s ++ '.' :: Z)) he ⟨' ', _, rfl, by decide⟩
+    have hpred : predicateL (n.toList ++ ' ' :: '-' :: '>' :: ' ' :: (srtL s ++ '.' :: Z)) = none := by
+      simp only [predicateL, hlex, skip_space, skip_cons_solid _ (show Solid '-' from ⟨by decide, by decide⟩)]
+      rfl
+    have hsrt : StartsSolid (srtL s ++ '.' :: Z) := by cases s <;> exact ⟨_, _, rfl, by decide, by decide⟩
+    have harrow : stripPrefix "->".toList (skip ('-' :: '>' :: ' ' :: (srtL s ++ '.' :: Z))) = some (' ' :: (srtL s ++ '.' :: Z)) := by
+      rw [skip_cons_solid _ (show Solid '-' from ⟨by decide, by decide⟩)]
+      simp [stripPrefix]
+    simp only [ugEntryL, hkw, hmiss, hpred, Option.map_none, hlex, harrow, skip_space, skip_of_startsSolid hsrt,
+      lexSort_print s ('.' :: Z) (Asp.noId_cons Z (by decide)), String.ofList_toList]
+  | formula a =>
+    have hr : ∀ kw : String, ∀ k ks, kw.toList = k :: ks → (k = 'i' ∨ k = 'o') → (∀ x ∈ ks, True) →
+        True := fun _ _ _ _ _ _ => trivial
+    have htxt : UGEntry.printL (.formula a) ++ '.' :: Z = roleL a.role ++ (dirL a.direction ++ (nameL a.name ++ ':' :: ' ' :: Formula.printL a.formula) ++ '.' :: Z) := by
+      simp [UGEntry.printL, SAnn.printL]
+    have hin : keywordColon "input" (UGEntry.printL (.formula a) ++ '.' :: Z) = none := by
+      rw [htxt]
+      cases a.role <;> simp [keywordColon, roleL, SRole.print, stripPrefix]
+    have hout : keywordColon "output" (UGEntry.printL (.formula a) ++ '.' :: Z) = none := by
+      rw [htxt]
+      cases a.role <;> simp [keywordColon, roleL, SRole.print, stripPrefix]
+    have hann := annotatedL_printL a he ('.' :: Z) (atomicFollow_dot Z) (lexConn_dot Z)
+    simp only [UGEntry.printL] at hin hout ⊢
+    simp only [ugEntryL, hin, hout, hann, Option.map_some]
+
+/-! ## user guides -/
+
+def ugL : List UGEntry → List Char
+  | [] => []
+  | e :: es => UGEntry.printL e ++ '.' :: '\n' :: ugL es
+
+theorem printUserGuide_toList (u : UserGuide) : (printUserGuide u).toList = ugL u := by
+  induction u with
+  | nil => rfl
+  | cons e es ih =>
+    simp only [printUserGuide, List.map_cons, String.join_cons, String.toList_append, UGEntry.print_toList] at ih ⊢
+    rw [ih]
+    simp [ugL]
+
+def UserGuide.Safe (u : UserGuide) : Prop := ∀ e ∈ u, UGEntry.Safe e
+
+theorem UGEntry.printL_startsSolid (e : UGEntry) : StartsSolid (UGEntry.printL e) := by
+  cases e with
+  | input p => exact ⟨'i', _, rfl, by decide, by decide⟩
+  | output p => exact ⟨'o', _, rfl, by decide, by decide⟩
+  | placeholder n s => exact ⟨'i', _, rfl, by decide, by decide⟩
+  | formula a => exact SAnn.printL_startsSolid a
+
+theorem skip_ugL (u : List UGEntry) : skip (ugL u) = ugL u := by
+  cases u with
+  | nil => rfl
+  | cons e es => exact skip_of_startsSolid ((UGEntry.printL_startsSolid e).append _)
+
+theorem ugL_length (u : List UGEntry) : u.length ≤ (ugL u).length := by
+  induction u with
+  | nil => simp
+  | cons e es ih => simp only [ugL, List.length_cons, List.length_append]; omega
+
+theorem ugEntryL_nil : ugEntryL [] = none := by
+  simp [ugEntryL, keywordColon, stripPrefix, annotatedL_nil]
+
+theorem ugEntriesDot_print : ∀ (u : List UGEntry), (∀ e ∈ u, UGEntry.Safe e) → ∀ (cs : List Char) (n : Nat),
+    skip cs = ugL u → u.length < n → ∃ tail, ugEntriesDot n cs = (u, tail) ∧ skip tail = [] := by
+  intro u
+  induction u with
+  | nil =>
+    intro _ cs n hcs hn
+    obtain ⟨n0, rfl⟩ : ∃ n0, n = n0 + 1 := ⟨n - 1, by omega⟩
+    refine ⟨cs, ?_, hcs⟩
+    simp only [ugEntriesDot, hcs, ugL, ugEntryL_nil]
+  | cons e es ih =>
+    intro hs cs n hcs hn
+    simp only [List.length_cons] at hn
+    obtain ⟨n0, rfl⟩ : ∃ n0, n = n0 + 1 := ⟨n - 1, by omega⟩
+    have he := hs e List.mem_cons_self
+    have htop := ugEntryL_printL e he ('\n' :: ugL es)
+    obtain ⟨tail, h1, h2⟩ := ih (fun b hb => hs b (List.mem_cons_of_mem _ hb)) ('\n' :: ugL es) n0
+      (by rw [skip_newline]; exact skip_ugL es) (by omega)
+    refine ⟨tail, ?_, h2⟩
+    simp only [ugEntriesDot, hcs, ugL, htop, skip_cons_solid ('\n' :: ugL es) (show Solid '.' from ⟨by decide, by decide⟩), h1]
+
+/-- **Round trip.** Parsing the printed text of a user guide of safe entries returns it. -/
+theorem parseUserGuide_printUserGuide (u : UserGuide) (hu : UserGuide.Safe u) :
+    parseUserGuide (printUserGuide u) = some u := by
+  have hlen : u.length < (printUserGuide u).length + 1 := by
+    have := ugL_length u
+    rw [← printUserGuide_toList, String.length_toList] at this
+    omega
+  obtain ⟨tail, h1, h2⟩ := ugEntriesDot_print u hu (printUserGuide u).toList ((printUserGuide u).length + 1)
+    (by rw [printUserGuide_toList]; exact skip_ugL u) hlen
+  simp only [parseUserGuide, h1, h2]
+
 end Anthem.Fol
